@@ -114,7 +114,8 @@ func runBatch(ctx context.Context, sv *SolverSpec, prelude, decls string, obs []
 	f.Close()
 	defer os.Remove(f.Name())
 	start := time.Now()
-	total := time.Duration(timeoutMs)*time.Millisecond*time.Duration(len(obs)) + 20*time.Second
+	// hard wall limit for the whole batch: generous per obligation, but a wedged query cannot block the run
+	total := time.Duration(len(obs))*60*time.Millisecond + time.Duration(timeoutMs)*time.Millisecond + 10*time.Second
 	cctx, cancel := context.WithTimeout(ctx, total)
 	defer cancel()
 	cmd := exec.CommandContext(cctx, sv.Bin, append(sv.Args(timeoutMs), f.Name())...)
